@@ -7,11 +7,16 @@ import traceback
 HERE = os.path.dirname(os.path.abspath(__file__))
 sys.path.insert(0, os.path.dirname(HERE))
 
-from sa.pyir import Program, AnalysisError          # noqa: E402
-from sa.roles import Roles                          # noqa: E402
-from sa import report, oracle                       # noqa: E402
-from sa import rules as rulespkg                    # noqa: E402
-from sa.props import PROPS                          # noqa: E402
+try:
+    from sa.pyir import Program, AnalysisError          # noqa: E402
+    from sa.roles import Roles                          # noqa: E402
+    from sa import report, oracle                       # noqa: E402
+    from sa import rules as rulespkg                    # noqa: E402
+    from sa.props import PROPS                          # noqa: E402
+except BaseException:                                   # a broken analyser must never look like a violation (exit 1)
+    traceback.print_exc()
+    print('ANALYSIS-ERROR: the analyser failed to load')
+    sys.exit(2)
 
 
 def run_one(prop_id, tier, seed, repo, quiet=False):
@@ -107,4 +112,12 @@ def main(argv):
 
 
 if __name__ == '__main__':
-    sys.exit(main(sys.argv[1:]))
+    try:
+        rc = main(sys.argv[1:])
+    except SystemExit:
+        raise
+    except BaseException:
+        traceback.print_exc()
+        print('ANALYSIS-ERROR: internal error of the analyser (see traceback)')
+        rc = 2
+    sys.exit(rc)
